@@ -96,7 +96,8 @@ Inductive action :=
 | ANextBlock
 | ARegisterClient (name : bytes) (c : ctype) (ok : bool)     (* gov CreateClientProposal (ok = Initialize succeeded) *)
 | AToggleClient (name : bytes) (c : ctype) (ok : bool)       (* gov ToggleClientProposal *)
-| ARegisterRelayer (addr : bytes) (chains addrs : list bytes). (* gov RegisterRelayerProposal *)
+| ARegisterRelayer (addr : bytes) (chains addrs : list bytes) (* gov RegisterRelayerProposal *)
+| AUpgradeClient (name : bytes) (c : ctype) (ok : bool).     (* gov UpgradeClientProposal (ok = UpgradeState succeeded) *)
 
 Definition kind_commit : N := 0.
 Definition kind_ack : N := 1.
@@ -410,11 +411,30 @@ Section Packet.
     end.
 
   (** *** everything else *)
+  (** proposal.go HandleCreateClient at HEAD (fix a9e74e1): a client under the chain's OWN name is refused *)
   Definition register_client (s : cstate) (name : bytes) (c : ctype) (ok : bool) : outcome cstate :=
     if negb (valid_name name) then Err else         (* CreateClientProposal.ValidateBasic *)
+    if bytes_eqb name (st_name s) then Err else     (* p.ChainName == GetChainName(ctx) *)
     match aget name (st_clients s) with
-    | Some _ => Err                                   (* HandleCreateClient: ErrClientExists *)
+    | Some _ => Err                                   (* ErrClientExists *)
     | None => if ok then Ok (set_clients (aset name c (st_clients s)) s) else Err
+    end.
+
+  (** the same handler BEFORE fix a9e74e1 (kept for Refuted/C04_selfclient.v, Refuted/C05_selfclient.v) *)
+  Definition register_client_prefix (s : cstate) (name : bytes) (c : ctype) (ok : bool) : outcome cstate :=
+    if negb (valid_name name) then Err else
+    match aget name (st_clients s) with
+    | Some _ => Err
+    | None => if ok then Ok (set_clients (aset name c (st_clients s)) s) else Err
+    end.
+
+  (** client.go UpgradeClient (gov UpgradeClientProposal): needs an EXISTING client of the SAME type; the client
+      table (name -> type) is unchanged, only that client's own store is rewritten *)
+  Definition upgrade_client (s : cstate) (name : bytes) (c : ctype) (ok : bool) : outcome cstate :=
+    if negb (valid_name name) then Err else
+    match aget name (st_clients s) with
+    | None => Err
+    | Some c0 => if c0 =? c then (if ok then Ok s else Err) else Err
     end.
 
   Definition toggle_client (s : cstate) (name : bytes) (c : ctype) (ok : bool) : outcome cstate :=
@@ -436,6 +456,14 @@ Section Packet.
     | ARegisterClient name c ok => register_client s name c ok
     | AToggleClient name c ok => toggle_client s name c ok
     | ARegisterRelayer addr chains addrs => Ok (set_relayers (aset addr (chains, addrs) (st_relayers s)) s)
+    | AUpgradeClient name c ok => upgrade_client s name c ok
+    end.
+
+  (** the chain BEFORE fix a9e74e1: only the client-creating proposal differs *)
+  Definition exec_prefix (env : N) (s : cstate) (a : action) : outcome cstate :=
+    match a with
+    | ARegisterClient name c ok => register_client_prefix s name c ok
+    | _ => exec env s a
     end.
 
   (** *** types/msgs.go: MsgRecvPacket.ValidateBasic / MsgAcknowledgement.ValidateBasic — the stateless checks BaseApp
@@ -474,5 +502,17 @@ Section Packet.
     match l with
     | [] => s
     | o :: l' => run (fst (step s o)) l'
+    end.
+
+  Definition step_prefix (s : cstate) (o : op) : cstate * bool :=
+    match (if msg_basic (snd o) then exec_prefix (fst o) s (snd o) else Err) with
+    | Ok s' => (s', true)
+    | _ => (s, false)
+    end.
+
+  Fixpoint run_prefix (s : cstate) (l : list op) : cstate :=
+    match l with
+    | [] => s
+    | o :: l' => run_prefix (fst (step_prefix s o)) l'
     end.
 End Packet.
